@@ -11,7 +11,8 @@
                                     being saved in the same action (the guard [safe_hist] = neither defect occurs)
      C11_order_full                 release order, for EVERY history
      C11_no_dup_full                nothing twice without crashes, for EVERY crash-free history
-     C11_refused_handoff_full       a refused hand-off marks nothing seen (it is retried by the next reap) *)
+     C11_refused_handoff_full       a refused hand-off marks nothing seen (it is retried by the next reap)
+     C11_queue_is_C10_spec_full     the model's queue steps are the FIFO specification C10 proves of the real queue *)
 From Coq Require Import NArith ZArith List Bool.
 From Verif Require Import Model.Reaper Proofs.ReaperProofs.
 Import ListNotations.
@@ -59,6 +60,20 @@ Theorem C11_refused_handoff_full : forall (max : N) (gt : Z) (s : st),
   step max gt s (IRun AReap) = set_taken (taken s ++ mem s) s.
 Proof. exact refused_no_trace. Qed.
 Print Assumptions C11_refused_handoff_full.
+
+(* The queue of this model is the FIFO specification of C10: under any encoding of transaction lists as the content
+   ids of Model/Queue.v, acceptance / refusal at the bound / hand-out of the head are the steps [s_step] of the
+   specification that C10_fifo_full proves the real single-sequencer queue to refine (restarts and crashes included). *)
+Theorem C11_queue_is_C10_spec_full : forall (enc : batch -> Verif.Model.Queue.batch) (max : N) (q : list batch),
+  (forall b, Verif.Model.Queue.s_step max (map enc q) (Verif.Model.Queue.USubmit true (Verif.Model.Queue.UB (enc b))) =
+     if full max q then (map enc q, Verif.Model.Queue.RFull) else (map enc (q ++ [b]), Verif.Model.Queue.ROk)) /\
+  Verif.Model.Queue.s_step max (map enc q) (Verif.Model.Queue.UNext true) =
+    match q with
+    | [] => (map enc q, Verif.Model.Queue.REmpty)
+    | b :: r => (map enc r, Verif.Model.Queue.RBatch (enc b))
+    end.
+Proof. exact (fun enc max q => conj (queue_submit_is_C10 enc max q) (queue_next_is_C10 enc max q)). Qed.
+Print Assumptions C11_queue_is_C10_spec_full.
 
 (* ---- the property as worded is false of the faithful model -------------------------------------------------- *)
 (* F12: nothing crashes; the batch [7] is taken with a clock reading (150) before the last block's time (200):
